@@ -364,3 +364,8 @@ func failNoPeers() {
 	kit.Observe("%s v=%d", k.Name, variant)
 	kit.Must("Close", func() { _ = x.S.Close() })
 }
+
+
+// BestEffortModes is the best-effort body (also run under C19: an accepted BestEffort option stays
+// in effect whatever other send options are set beside it).
+func BestEffortModes() { sendModes("besteffort") }
